@@ -4,7 +4,8 @@ P=$1; M=$2; D=${SEEDROOT:-/tmp/wt3}/$P/_seeded/$M; W=/tmp/wtc
 export GOFLAGS=-mod=mod GOPROXY=off GOSUMDB=off
 cd /repo && git worktree remove --force $W 2>/dev/null; git worktree add -q --detach $W HEAD || exit 2
 cd $W
-git apply $D/patch.diff || { echo "RESULT $P $M patch-does-not-apply"; exit 1; }
+PATCH=$D/patch.diff; [ -f $D/patch.ported.diff ] && PATCH=$D/patch.ported.diff
+git apply $PATCH || { echo "RESULT $P $M patch-does-not-apply"; exit 1; }
 go build ./... || { echo "RESULT $P $M build-fails"; exit 1; }
 if go test -vet=off -count=1 . ./internal/... ./store/... ./datadictionary/... ./config/... > /tmp/confirm_suite.log 2>&1; then suite=pass; else suite=FAIL; fi
 rundemo() {
